@@ -17,3 +17,5 @@ func TestC01(t *testing.T) { runProp(t, "C01", drawC01) }
 func TestC11(t *testing.T) { runProp(t, "C11", drawC11) }
 
 func TestC02(t *testing.T) { runProp(t, "C02", drawC02) }
+
+func TestC14(t *testing.T) { runProp(t, "C14", drawC14) }
